@@ -190,6 +190,29 @@ def run_case(cfg_shard, case, out):
                 viol("client-keep-alive-setting-not-applied", "client configured keep-alive %.3f but idle gaps are %.4f..%.4f" % (ka, min(gaps), max(gaps)))
             else:
                 c.inc("k1_sides_within_bound")
+        # ---------------- K5: a keep-alive interval changed in the middle of an idle connection takes effect at once
+        #                  (lowered right after an emission made under a long interval; then raised again)
+        if cfg["server_connection_timeout"] > 4.0:
+            long_ka = min(2.0, cfg["server_connection_timeout"] / 3.0)
+            call_setter(a, "keep_alive", long_ka, "after")
+            ems = emissions["c2s"].setdefault(a.addr, [])
+            n0 = len(ems)
+            w.run_until(lambda ww: len(ems) > n0 + 1, int((2 * long_ka + 1.0) / cfg["dt"]) + 5)      # emissions under the long interval
+            short_ka = r.choice([0.05, 0.1, 0.2])
+            t_set = w.clock.now
+            n1 = len(ems)
+            call_setter(a, "keep_alive", short_ka, "after")
+            w.run_until(lambda ww: len(ems) > n1, int((long_ka + 1.0) / cfg["dt"]) + 5)
+            c.inc("k5_keep_alive_lowered_mid_idle")
+            bound = max(short_ka, send_interval) + tick_max + EPS
+            last_before = ems[n1 - 1] if n1 else t_set
+            if len(ems) <= n1 or ems[n1] - last_before > max(bound, t_set - last_before + bound):
+                viol("client-keep-alive-setting-not-applied", "keep-alive lowered from %.2f to %.2f while idle: next emission %s after the change (bound %.4f)" % (
+                    long_ka, short_ka, ("%.4fs" % (ems[n1] - t_set)) if len(ems) > n1 else "never", bound))
+            else:
+                c.inc("k5_keep_alive_lowered_in_window")
+            call_setter(a, "keep_alive", eff["keep_alive"], "after")
+            w.step(int((eff["keep_alive"] + 0.3) / cfg["dt"]) + 3)
         # ---------------- K5: message timeouts take effect (probe under a full outage)
         mt_c, mt_s = eff["message_timeout"], cfg["server_message_timeout"]
         probe = max(mt_c, mt_s) + 4 * tick_max + send_interval + 0.2
@@ -285,7 +308,8 @@ def finish(tier, seed, results):
     need(m["counters"], ["k1_gaps_checked", "k1_sides_within_bound", "k2_idle_periods_survived", "k3_link_cuts", "k3_server_in_window",
                          "k3_client_in_window", "k4_unanswered_connects", "k4_in_window", "k4_callback_once_false", "k5_message_timeout_probes",
                          "k5_message_timeout_in_window", "setter_keep_alive_before", "setter_keep_alive_after", "setter_connect_timeout_before",
-                         "setter_connect_timeout_after", "setter_message_timeout_before", "setter_message_timeout_after"], inconclusive)
+                         "setter_connect_timeout_after", "setter_message_timeout_before", "setter_message_timeout_after", "k5_keep_alive_lowered_mid_idle",
+                         "k5_keep_alive_lowered_in_window"], inconclusive)
     cov = {
         "evaluations": m["evaluations"],
         "distinct_nontrivial": m["distinct_nontrivial"],
